@@ -6,12 +6,14 @@ package dtls
 import (
 	"bytes"
 	"encoding/gob"
+	"hash"
 	"sync/atomic"
 
 	"github.com/pion/dtls/v3/internal/ciphersuite"
 	dtlserrors "github.com/pion/dtls/v3/internal/errors"
 	dtlsstate "github.com/pion/dtls/v3/internal/state"
 	dtlsutil "github.com/pion/dtls/v3/internal/util"
+	"github.com/pion/dtls/v3/pkg/crypto/keyschedule"
 	"github.com/pion/dtls/v3/pkg/crypto/prf"
 	"github.com/pion/dtls/v3/pkg/protocol"
 	"github.com/pion/dtls/v3/pkg/protocol/handshake"
@@ -23,6 +25,7 @@ type State struct {
 	localEpoch, remoteEpoch   uint16
 	localRandom, remoteRandom handshake.Random
 	masterSecret              []byte
+	exporterMasterSecret      []byte // DTLS 1.3: exporter_master_secret of RFC 8446 section 7.5
 	sequenceNumber            uint64
 	srtpProtectionProfile     SRTPProtectionProfile
 	peerSRTPMKI               []byte
@@ -140,6 +143,7 @@ func generateState13(internalState *dtlsstate.State13) (*State, error) {
 		rrcNegotiated:         common.RRCNegotiated,
 		isClient:              common.IsClient,
 		version:               protocol.Version1_3,
+		exporterMasterSecret:  bytes.Clone(internalState.KeySchedule.ExporterMasterSecret),
 		CipherSuiteID:         internalState.CipherSuite.ID(),
 		PeerCertificates:      dtlsutil.CloneByteSlices(common.PeerCertificates),
 		IdentityHint:          bytes.Clone(common.IdentityHint),
@@ -329,6 +333,10 @@ func (s *State) ExportKeyingMaterial(label string, context []byte, length int) (
 		return nil, err
 	}
 
+	if s.version.Equal(protocol.Version1_3) {
+		return s.exportKeyingMaterial13(cipherSuite.HashFunc(), label, context, length)
+	}
+
 	localRandom := s.localRandom.MarshalFixed()
 	remoteRandom := s.remoteRandom.MarshalFixed()
 
@@ -340,6 +348,26 @@ func (s *State) ExportKeyingMaterial(label string, context []byte, length int) (
 	}
 
 	return prf.PHash(s.masterSecret, seed, length, cipherSuite.HashFunc())
+}
+
+// exportKeyingMaterial13 is the exporter of RFC 8446 section 7.5, keyed by the
+// connection's exporter_master_secret:
+//
+//	HKDF-Expand-Label(Derive-Secret(Secret, label, ""), "exporter", Hash(context_value), key_length)
+func (s *State) exportKeyingMaterial13(
+	hashFunc func() hash.Hash, label string, context []byte, length int,
+) ([]byte, error) {
+	if len(s.exporterMasterSecret) == 0 {
+		return nil, dtlserrors.ErrHandshakeInProgress
+	}
+	derived, err := keyschedule.DeriveSecret(hashFunc, s.exporterMasterSecret, label, hashFunc())
+	if err != nil {
+		return nil, err
+	}
+	contextHash := hashFunc()
+	contextHash.Write(context) //nolint:errcheck,gosec // hash.Hash.Write never returns an error
+
+	return keyschedule.HkdfExpandLabel(hashFunc, derived, "exporter", contextHash.Sum(nil), length)
 }
 
 // RemoteRandomBytes returns the remote client hello random bytes.
